@@ -251,6 +251,26 @@ fc_log_store (const char *key, const fc_store_t *s)
 	fprintf (vt_out, ",\"%s\":[]", key);
 }
 
+/* clip state of the alpha maps of the source (1) and the mask (2), set by the driver before fc_log_setup; logged as
+ * "srcam" / "maskam": {p,hc,cs,cc,clip,ox,oy} */
+static const fc_clipstate_t *fc_am_clip[3];
+static int fc_am_ox[3], fc_am_oy[3];
+
+static void
+fc_log_amclip (const char *key, int r)
+{
+    static const fc_clipstate_t none;
+    const fc_clipstate_t *cs = fc_am_clip[r] ? fc_am_clip[r] : &none;
+    int i;
+    fprintf (vt_out, ",\"%s\":{\"p\":%s,\"hc\":%s,\"cs\":%s,\"cc\":%s,\"ox\":%d,\"oy\":%d,\"clip\":[", key,
+	     cs->present ? "true" : "false", cs->hc ? "true" : "false", cs->cs ? "true" : "false",
+	     cs->cc ? "true" : "false", fc_am_ox[r], fc_am_oy[r]);
+    for (i = 0; i < cs->nclip; i++)
+	fprintf (vt_out, "%s[%d,%d,%d,%d]", i ? "," : "", cs->clip[4 * i], cs->clip[4 * i + 1], cs->clip[4 * i + 2],
+		 cs->clip[4 * i + 3]);
+    fputs ("]}", vt_out);
+}
+
 /* {"e":"Setup","dst":{fmt,w,h,stride,off,hc,clip,am:[{fmt,w,h,ox,oy,stride,off}]},"src":{..},"mask":{..},
  *  "dbuf":[..],"abuf":[..],"sbuf":[..]} */
 static void
@@ -271,6 +291,8 @@ fc_log_setup (const fc_store_t *dst, const fc_clipstate_t *dc, const fc_store_t 
     fputs ("]}", vt_out);
     fc_log_clipstate ("src", sc);
     fc_log_clipstate ("mask", mc);
+    fc_log_amclip ("srcam", 1);
+    fc_log_amclip ("maskam", 2);
     fc_log_store ("dbuf", dst);
     if (am && am->img)
 	fc_log_store ("abuf", am);
